@@ -88,7 +88,12 @@ def generate(tier):
         for assign in assignments(sh, 'cim'):
             for ctx in CTX[1:]:
                 cases.append(build(sh, assign, 'H', ctx=ctx))
-    return cases
+    seen, out = set(), []
+    for c in cases:
+        if c.key not in seen:
+            seen.add(c.key)
+            out.append(c)
+    return out
 
 
 RULE = ('every struct/enum shape within the bound x every assignment of {hashed, ignored (type whose Hash panics), method} '
